@@ -118,6 +118,7 @@ type Exec struct {
 	lastPerm [2]string
 	curLoopWritable []string
 	inlineMode bool
+	scannerHandle string
 	inlineResult *Val
 }
 
@@ -353,7 +354,7 @@ func (x *Exec) assumeWF(st *State, v Val) {
 			return
 		}
 		x.c.declared[key] = true
-		x.c.assume("true", fmt.Sprintf("(and (<= 0 (s.ref %s)) (< (s.ref %s) %s) (<= 0 (s.off %s)) (<= 0 (s.len %s)) (<= (s.len %s) (s.cap %s)))", t, t, st.alloc, t, t, t, t))
+		x.c.assume("true", fmt.Sprintf("(and (<= 0 (s.ref %s)) (< (s.ref %s) %s) (<= 0 (s.off %s)) (<= 0 (s.len %s)) (<= (s.len %s) (s.cap %s)) (=> (= (s.ref %s) 0) (= (s.cap %s) 0)))", t, t, st.alloc, t, t, t, t, t, t))
 	case *types.Struct:
 		if !isAtom(v.T) {
 			return
